@@ -9,11 +9,13 @@ import (
 	"verif/netsim/codec"
 	"verif/sim"
 
+	"github.com/brewlin/net-protocol/pkg/buffer"
 	"github.com/brewlin/net-protocol/pkg/waiter"
 	tcpip "github.com/brewlin/net-protocol/protocol"
 	"github.com/brewlin/net-protocol/protocol/network/ipv4"
 	"github.com/brewlin/net-protocol/protocol/transport/tcp"
 	"github.com/brewlin/net-protocol/protocol/transport/udp"
+	"github.com/brewlin/net-protocol/stack"
 )
 
 // scDemux: C09 - inbound packets reach exactly the socket they are addressed
@@ -47,7 +49,7 @@ func (scDemux) GenCfg(rng *sim.Rand, tier, prop, variant string) json.RawMessage
 var (
 	dmLocal = []tcpip.Address{"", A4, "\x0a\x00\x00\x05", "\x0a\x01\x00\x01", "\x0a\x00\x00\x4d"} // wildcard, NIC1, NIC1, NIC2, unassigned (in NIC1's subnet)
 	dmNICof = []int{-1, 0, 0, 1, -1}
-	dmPorts = []uint16{5000, 5001, 5002}
+	dmPorts = []uint16{5000, 5001, 5002, 5003} // 5003 is used only by directly registered endpoints
 	dmRAddr = []tcpip.Address{B4, B4, "\x0a\x00\x00\x03"}
 	dmRPort = []uint16{9000, 9001, 9000}
 )
@@ -63,10 +65,33 @@ type dmSock struct {
 	closed   bool
 	peer     *TCPPeer // established TCP connection: the scripted peer's state
 	sent     int64
+	resAddr  tcpip.Address // address its port reservation was made for ("" = wildcard)
+	reserves bool          // holds a port reservation (UDP sockets, TCP listeners)
+	nic      int           // 0: any interface; k: bound or connected through NIC k only
+	loose    bool          // bound to the wildcard address, then connected: whether it still hears other local addresses is not asserted
+	fake     *fakeEP       // registered directly with the stack's demultiplexer (no socket, no port reservation)
+}
+
+// fakeEP is a transport endpoint of the harness registered directly through
+// Stack.RegisterTransportEndpoint: it lets wildcard and specific bindings of
+// one port coexist, which the port manager forbids for sockets.
+type fakeEP struct {
+	got [][]byte
+}
+
+func (f *fakeEP) HandlePacket(r *stack.Route, id stack.TransportEndpointID, vv buffer.VectorisedView) {
+	v := vv.ToView()
+	if len(v) >= 8 {
+		f.got = append(f.got, append([]byte(nil), v[8:]...))
+	}
+}
+
+func (f *fakeEP) HandleControlPacket(id stack.TransportEndpointID, typ stack.ControlType, extra uint32, vv buffer.VectorisedView) {
 }
 
 type dmWorld struct {
 	*PeerWorld
+	prop  string
 	cfg   DemuxCfg
 	link2 *Link
 	socks []*dmSock
@@ -89,12 +114,15 @@ func (w *dmWorld) owned(nic int, dst tcpip.Address) bool {
 }
 
 // winner is the reference function written from the statement.
-func (w *dmWorld) winner(isTCP bool, dst tcpip.Address, dport uint16, src tcpip.Address, sport uint16) *dmSock {
+func (w *dmWorld) winner(isTCP bool, nic int, dst tcpip.Address, dport uint16, src tcpip.Address, sport uint16) *dmSock {
 	var best *dmSock
 	score := -1
 	for _, s := range w.socks {
 		if s.closed || s.tcp != isTCP || s.lport != dport {
 			continue
+		}
+		if s.nic != 0 && s.nic != nic+1 {
+			continue // tied to another interface
 		}
 		if s.laddr != "" && s.laddr != dst {
 			continue
@@ -118,60 +146,146 @@ func (w *dmWorld) winner(isTCP bool, dst tcpip.Address, dport uint16, src tcpip.
 
 func (w *dmWorld) conflict(isTCP bool, laddr tcpip.Address, lport uint16) bool {
 	for _, s := range w.socks {
-		if !s.closed && s.tcp == isTCP && s.lport == lport && (s.laddr == laddr || s.laddr == "" || laddr == "") {
+		if !s.closed && s.reserves && s.tcp == isTCP && s.lport == lport && (s.resAddr == laddr || s.resAddr == "" || laddr == "") {
 			return true
 		}
 	}
 	return false
 }
 
-func (w *dmWorld) open(kind, ai, pi, ri int) {
-	if len(w.socks) >= 10 {
+// bindResult judges the outcome of a Bind(+Listen) against the reservations
+// currently held (C10, socket-level clause).
+func (w *dmWorld) bindResult(isTCP bool, laddr tcpip.Address, lport uint16, conflict bool, err *tcpip.Error) {
+	switch {
+	case err != nil && !conflict:
+		w.Probes["bind_failed_without_conflict"]++
+		if w.prop == "C10" {
+			w.Fail("free-port-refused", "", "binding (tcp=%v) % x:%d failed with %q although no open socket holds a conflicting reservation (every earlier holder was closed)", isTCP, []byte(laddr), lport, err.String())
+		}
+	case err == nil && conflict:
+		w.Probes["bind_succeeded_despite_conflict"]++
+		if w.prop == "C10" {
+			w.Fail("conflicting-reservations", "", "binding (tcp=%v) % x:%d succeeded although an open socket holds a conflicting reservation of that port", isTCP, []byte(laddr), lport)
+		}
+	case err != nil:
+		w.Probes["bind_refused_on_conflict"]++
+	default:
+		w.Probes["bind_succeeded"]++
+	}
+}
+
+// demuxFail raises a delivery violation (C09 only: under C10 the same world is
+// driven for its bind/close outcomes).
+func (w *dmWorld) demuxFail(class, format string, a ...interface{}) {
+	if w.prop == "C10" {
+		w.Probes["demux_anomaly_not_judged_under_C10"]++
 		return
 	}
-	laddr, lport := dmLocal[ai%4], dmPorts[pi%3]
+	w.Fail(class, "", format, a...)
+}
+
+// nicOf is the NIC id (1-based) owning local address index ai, or 0 for the wildcard.
+func nicOf(laddr tcpip.Address) tcpip.NICID {
+	for i, a := range dmLocal {
+		if i > 0 && a == laddr && dmNICof[i] >= 0 {
+			return tcpip.NICID(dmNICof[i] + 1)
+		}
+	}
+	return 0
+}
+
+// open opens one socket. mode bits: 1 = bind through the owning interface
+// explicitly, 2 = connect through an explicit interface, 4 = keep a wildcard
+// bind when connecting.
+func (w *dmWorld) open(kind, ai, pi, ri, mode int) *dmSock {
+	if len(w.socks) >= 12 {
+		return nil
+	}
+	return w.openAt(kind, dmLocal[ai%4], dmPorts[pi%3], ri, mode, ai)
+}
+
+func (w *dmWorld) openAt(kind int, laddr tcpip.Address, lport uint16, ri, mode, ai int) *dmSock {
+	var made *dmSock
 	switch kind {
 	case 0, 1: // UDP bound / connected
-		if kind == 1 && laddr == "" {
+		if kind == 1 && laddr == "" && mode&4 == 0 {
 			laddr = dmLocal[1]
 		}
 		ep, err := w.S.S.NewEndpoint(udp.ProtocolNumber, ipv4.ProtocolNumber, &waiter.Queue{})
 		must(err, "udp endpoint")
-		if e := ep.Bind(tcpip.FullAddress{Addr: laddr, Port: lport}, nil); e != nil {
-			if !w.conflict(false, laddr, lport) {
-				w.Probes["bind_failed_without_conflict"]++
+		var bnic tcpip.NICID
+		if mode&1 != 0 {
+			bnic = nicOf(laddr)
+			if bnic == 0 {
+				bnic = tcpip.NICID(1 + ai%2)
 			}
-			ep.Close()
-			return
 		}
-		s := &dmSock{ep: ep, laddr: laddr, lport: lport}
+		conflict := w.conflict(false, laddr, lport)
+		e := ep.Bind(tcpip.FullAddress{NIC: bnic, Addr: laddr, Port: lport}, nil)
+		w.bindResult(false, laddr, lport, conflict, e)
+		if e != nil {
+			ep.Close()
+			return nil
+		}
+		s := &dmSock{ep: ep, laddr: laddr, lport: lport, resAddr: laddr, reserves: true, nic: int(bnic)}
+		if bnic != 0 {
+			w.Probes["sockets_bound_to_an_interface"]++
+		}
 		if kind == 1 {
 			ra, rp := dmRAddr[ri%3], dmRPort[ri%3]
-			if laddr == dmLocal[3] {
-				// NIC2's address cannot reach the 10.0.0.x peers through the route table: keep it bound only
-			} else if e := ep.Connect(tcpip.FullAddress{Addr: ra, Port: rp}); e == nil {
+			var cnic tcpip.NICID
+			if mode&2 != 0 {
+				cnic = 1
+			}
+			if laddr == dmLocal[3] || bnic == 2 {
+				// NIC2 cannot reach the 10.0.0.x peers through the route table: keep it bound only
+			} else if e := ep.Connect(tcpip.FullAddress{NIC: cnic, Addr: ra, Port: rp}); e == nil {
 				s.raddr, s.rport = ra, rp
+				if cnic != 0 {
+					s.nic = int(cnic)
+					w.Probes["sockets_connected_through_an_interface"]++
+				}
+				if laddr == "" {
+					// the connected identity takes the route's source address
+					s.laddr, s.loose = dmLocal[1], true
+					if s.nic == 0 {
+						s.nic = 1 // the route to the peer leaves through NIC 1
+					}
+					w.Probes["wildcard_bound_then_connected"]++
+				}
 			}
 		}
 		w.socks = append(w.socks, s)
+		made = s
 	case 2: // TCP listener
 		ep, err := w.S.S.NewEndpoint(tcp.ProtocolNumber, ipv4.ProtocolNumber, &waiter.Queue{})
 		must(err, "tcp endpoint")
-		if e := ep.Bind(tcpip.FullAddress{Addr: laddr, Port: lport}, nil); e != nil {
-			ep.Close()
-			return
+		conflict := w.conflict(true, laddr, lport)
+		e := ep.Bind(tcpip.FullAddress{Addr: laddr, Port: lport}, nil)
+		if e == nil {
+			e = ep.Listen(4)
 		}
-		if e := ep.Listen(4); e != nil {
+		w.bindResult(true, laddr, lport, conflict, e)
+		if e != nil {
 			ep.Close()
-			return
+			return nil
 		}
-		w.socks = append(w.socks, &dmSock{tcp: true, listener: true, ep: ep, laddr: laddr, lport: lport})
+		made = &dmSock{tcp: true, listener: true, ep: ep, laddr: laddr, lport: lport, resAddr: laddr, reserves: true}
+		w.socks = append(w.socks, made)
 	case 3: // TCP connection through a real handshake with a matching listener
 		dst := dmLocal[1+ai%2]
+		if laddr != "" && nicOf(laddr) == 1 {
+			dst = laddr
+		}
 		ra, rp := dmRAddr[ri%3], dmRPort[ri%3]
-		l := w.winner(true, dst, lport, ra, rp)
+		l := w.winner(true, 0, dst, lport, ra, rp)
 		if l == nil || !l.listener {
-			return
+			return nil
+		}
+		for _, s := range w.socks {
+			if s.closed && s.tcp && !s.listener && s.laddr == dst && s.lport == lport && s.raddr == ra && s.rport == rp {
+				return nil // the 4-tuple may still belong to a connection that is winding down
+			}
 		}
 		p := w.NewTCPPeer(false, rp, lport, uint32(sim.Mix(w.seed^uint64(len(w.socks)))))
 		p.PAddr, p.SAddr = ra, dst
@@ -179,19 +293,69 @@ func (w *dmWorld) open(kind, ai, pi, ri int) {
 		p.Send(codec.FlagSYN, p.ISS, 0, 65535, nil, nil)
 		mine := p.Mine(w.Take())
 		if len(mine) == 0 || mine[0].Flags&codec.FlagSYN == 0 {
-			return
+			fl := -1
+			if len(mine) > 0 {
+				fl = int(mine[0].Flags)
+			}
+			w.demuxFail("listener-unreachable", "SYN to % x:%d from % x:%d, where an open listener (bound % x:%d) is the most specific match, was not answered with SYN|ACK (answer flags %#x, -1 = none)", []byte(dst), lport, []byte(ra), rp, []byte(l.laddr), l.lport, fl)
+			return nil
 		}
 		p.SndNxt = p.ISS + 1
 		p.Send(codec.FlagACK, p.SndNxt, p.RcvNxt, 65535, nil, nil)
 		p.Mine(w.Take())
 		ep, _, e := l.ep.Accept()
 		if e != nil {
-			return
+			w.Probes["handshake_done_but_accept_failed"]++
+			return nil
 		}
-		w.socks = append(w.socks, &dmSock{tcp: true, ep: ep, laddr: dst, lport: lport, raddr: ra, rport: rp, peer: p})
+		made = &dmSock{tcp: true, ep: ep, laddr: dst, lport: lport, raddr: ra, rport: rp, peer: p}
+		w.socks = append(w.socks, made)
 		w.Probes["tcp_connections"]++
+	case 4: // an endpoint registered directly with the demultiplexer on port 5003, any of the four binding shapes
+		if mode&8 != 0 {
+			// (only generated for this kind) keep the shape's local address wildcard
+			laddr = ""
+		}
+		id := stack.TransportEndpointID{LocalPort: dmPorts[3], LocalAddress: laddr}
+		s := &dmSock{laddr: laddr, lport: dmPorts[3], fake: &fakeEP{}}
+		if mode&2 != 0 {
+			s.raddr, s.rport = dmRAddr[ri%3], dmRPort[ri%3]
+			id.RemoteAddress, id.RemotePort = s.raddr, s.rport
+		}
+		dup := false
+		for _, o := range w.socks {
+			if !o.closed && o.fake != nil && o.laddr == s.laddr && o.raddr == s.raddr && o.rport == s.rport {
+				dup = true
+			}
+		}
+		e := w.S.S.RegisterTransportEndpoint(0, []tcpip.NetworkProtocolNumber{ipv4.ProtocolNumber}, udp.ProtocolNumber, id, s.fake)
+		switch {
+		case e == nil && dup:
+			w.demuxFail("duplicate-registration-accepted", "a second endpoint was registered under the identity (% x:%d, % x:%d) already taken by an open one", []byte(s.laddr), s.lport, []byte(s.raddr), s.rport)
+		case e != nil && !dup:
+			w.demuxFail("registration-refused", "registering an endpoint under the free identity (% x:%d, % x:%d) failed: %s", []byte(s.laddr), s.lport, []byte(s.raddr), s.rport, e.String())
+		}
+		if e != nil {
+			return nil
+		}
+		w.Probes["directly_registered_endpoints"]++
+		w.socks = append(w.socks, s)
+		made = s
 	}
-	w.Settle()
+	return made
+}
+
+func (w *dmWorld) closeSock(s *dmSock) {
+	if s.closed {
+		return
+	}
+	s.closed = true
+	if s.fake != nil {
+		id := stack.TransportEndpointID{LocalPort: s.lport, LocalAddress: s.laddr, RemoteAddress: s.raddr, RemotePort: s.rport}
+		w.S.S.UnregisterTransportEndpoint(0, []tcpip.NetworkProtocolNumber{ipv4.ProtocolNumber}, udp.ProtocolNumber, id)
+		return
+	}
+	s.ep.Close()
 }
 
 func dmPayload(seed uint64, id int) []byte {
@@ -206,7 +370,7 @@ func dmPayload(seed uint64, id int) []byte {
 
 // inject sends one packet and then reads every open socket.
 func (w *dmWorld) inject(isTCP bool, nic, di, pi, ri int) {
-	dst, dport := dmLocal[1+di%4], dmPorts[pi%3]
+	dst, dport := dmLocal[1+di%4], dmPorts[pi%4]
 	src, sport := dmRAddr[ri%3], dmRPort[ri%3]
 	w.npkt++
 	payload := dmPayload(w.seed, w.npkt)
@@ -216,9 +380,18 @@ func (w *dmWorld) inject(isTCP bool, nic, di, pi, ri int) {
 	}
 	w.Take()
 	owned := w.owned(nic, dst)
-	win := w.winner(isTCP, dst, dport, src, sport)
+	win := w.winner(isTCP, nic, dst, dport, src, sport)
 	if !owned {
 		win = nil
+	}
+	// a socket bound to the wildcard address and then connected: whether it still
+	// hears packets for its other local addresses is left open
+	ambiguous := false
+	for _, s := range w.socks {
+		if !s.closed && s.loose && !isTCP && s.lport == dport && s.raddr == src && s.rport == sport && dst != s.laddr {
+			ambiguous = true
+			w.Probes["packet_for_loosely_bound_connected_socket"]++
+		}
 	}
 	var seg []byte
 	if isTCP {
@@ -249,10 +422,24 @@ func (w *dmWorld) inject(isTCP bool, nic, di, pi, ri int) {
 			continue
 		}
 		var from tcpip.FullAddress
-		v, _, err := s.ep.Read(&from)
+		var v buffer.View
+		var err *tcpip.Error
+		if s.fake != nil {
+			if len(s.fake.got) == 0 {
+				err = tcpip.ErrWouldBlock
+			} else {
+				v, s.fake.got = s.fake.got[0], s.fake.got[1:]
+				from = tcpip.FullAddress{Addr: src, Port: sport}
+			}
+		} else {
+			v, _, err = s.ep.Read(&from)
+		}
+		if ambiguous {
+			continue
+		}
 		if err != nil {
 			if s == win && (!isTCP || s.peer != nil) {
-				w.Fail("not-delivered", "", "packet #%d (tcp=%v) to % x:%d from % x:%d on NIC %d should reach socket %d (bound % x:%d, remote % x:%d) but that socket has nothing to read (%v)", w.npkt, isTCP, []byte(dst), dport, []byte(src), sport, nic+1, i, []byte(s.laddr), s.lport, []byte(s.raddr), s.rport, err)
+				w.demuxFail("not-delivered", "packet #%d (tcp=%v) to % x:%d from % x:%d on NIC %d should reach socket %d (bound % x:%d, remote % x:%d) but that socket has nothing to read (%v)", w.npkt, isTCP, []byte(dst), dport, []byte(src), sport, nic+1, i, []byte(s.laddr), s.lport, []byte(s.raddr), s.rport, err)
 			}
 			continue
 		}
@@ -263,22 +450,30 @@ func (w *dmWorld) inject(isTCP bool, nic, di, pi, ri int) {
 			} else if win == nil {
 				why = "no socket matches"
 			}
-			w.Fail("delivered-to-wrong-socket", "", "packet #%d (tcp=%v) to % x:%d from % x:%d on NIC %d was delivered to socket %d (bound % x:%d, remote % x:%d): %s", w.npkt, isTCP, []byte(dst), dport, []byte(src), sport, nic+1, i, []byte(s.laddr), s.lport, []byte(s.raddr), s.rport, why)
+			w.demuxFail("delivered-to-wrong-socket", "packet #%d (tcp=%v) to % x:%d from % x:%d on NIC %d was delivered to socket %d (bound % x:%d, remote % x:%d): %s", w.npkt, isTCP, []byte(dst), dport, []byte(src), sport, nic+1, i, []byte(s.laddr), s.lport, []byte(s.raddr), s.rport, why)
 			continue
 		}
 		if !bytes.Equal(v, payload) {
-			w.Fail("payload-altered", "", "socket %d read %d bytes that differ from packet #%d's payload", i, len(v), w.npkt)
+			w.demuxFail("payload-altered", "socket %d read %d bytes that differ from packet #%d's payload", i, len(v), w.npkt)
 		}
 		if !isTCP && (from.Addr != src || from.Port != sport) {
-			w.Fail("wrong-sender", "", "packet #%d came from % x:%d, Read reported % x:%d", w.npkt, []byte(src), sport, []byte(from.Addr), from.Port)
+			w.demuxFail("wrong-sender", "packet #%d came from % x:%d, Read reported % x:%d", w.npkt, []byte(src), sport, []byte(from.Addr), from.Port)
 		}
 		w.Probes["delivered_to_winner"]++
-		if _, _, err := s.ep.Read(nil); err == nil {
-			w.Fail("delivered-twice", "", "packet #%d was readable twice on socket %d", w.npkt, i)
+		if s.fake != nil {
+			if len(s.fake.got) > 0 {
+				s.fake.got = nil
+				w.demuxFail("delivered-twice", "packet #%d was handed twice to endpoint %d", w.npkt, i)
+			}
+		} else if _, _, err := s.ep.Read(nil); err == nil {
+			w.demuxFail("delivered-twice", "packet #%d was readable twice on socket %d", w.npkt, i)
 		}
 	}
 	// replies
 	frames := w.Take()
+	if ambiguous {
+		return
+	}
 	if isTCP {
 		// a connection the application has closed still occupies its 4-tuple while
 		// the closing exchange runs: what answers a segment for it is not asserted
@@ -298,11 +493,11 @@ func (w *dmWorld) inject(isTCP bool, nic, di, pi, ri int) {
 	if isTCP {
 		switch {
 		case !owned && nrst > 0:
-			w.Fail("reset-for-foreign-address", "", "TCP segment to % x (not assigned to NIC %d) drew a reset", []byte(dst), nic+1)
+			w.demuxFail("reset-for-foreign-address", "TCP segment to % x (not assigned to NIC %d) drew a reset", []byte(dst), nic+1)
 		case owned && win == nil && nrst != 1:
-			w.Fail("stray-not-reset", "", "TCP segment #%d to % x:%d from % x:%d matches no socket and must draw exactly one reset, got %d", w.npkt, []byte(dst), dport, []byte(src), sport, nrst)
+			w.demuxFail("stray-not-reset", "TCP segment #%d to % x:%d from % x:%d matches no socket and must draw exactly one reset, got %d", w.npkt, []byte(dst), dport, []byte(src), sport, nrst)
 		case owned && win != nil && win.peer != nil && nrst > 0:
-			w.Fail("reset-on-established", "", "in-window data for an established connection drew a reset")
+			w.demuxFail("reset-on-established", "in-window data for an established connection drew a reset")
 		}
 		if owned && win == nil {
 			w.Probes["tcp_no_match_reset"]++
@@ -316,11 +511,32 @@ func (w *dmWorld) inject(isTCP bool, nic, di, pi, ri int) {
 func (w *dmWorld) apply(s Step) {
 	switch s.Op {
 	case "open":
-		w.open(s.A, s.B, s.C, int(s.D))
+		w.open(s.A, s.B, s.C, int(s.D)%3, int(s.D)/3)
+		w.Settle()
 	case "close":
 		if s.A >= 0 && s.A < len(w.socks) && !w.socks[s.A].closed {
-			w.socks[s.A].ep.Close()
-			w.socks[s.A].closed = true
+			w.closeSock(w.socks[s.A])
+			w.Settle()
+			w.Take()
+		}
+	case "reopen":
+		// close a socket and at once open one of the same kind on the same address
+		// and port, before the closed one's own goroutine has wound down
+		if s.A >= 0 && s.A < len(w.socks) && !w.socks[s.A].closed && len(w.socks) < 14 {
+			o := w.socks[s.A]
+			if o.fake != nil || (o.tcp && !o.listener) {
+				break
+			}
+			w.closeSock(o)
+			kind := 0
+			if o.tcp {
+				kind = 2
+			}
+			n := w.openAt(kind, o.resAddr, o.lport, 0, 0, 0)
+			w.Probes["closed_and_reopened_at_once"]++
+			if n != nil && kind == 2 && s.B%2 == 0 {
+				w.openAt(3, o.resAddr, o.lport, s.C, 0, s.C)
+			}
 			w.Settle()
 			w.Take()
 		}
@@ -336,9 +552,25 @@ func (w *dmWorld) apply(s Step) {
 
 func (w *dmWorld) next() Step {
 	r := w.Rng
-	switch r.Pick(6, 1, 10, 0, 1) {
+	switch r.Pick(6, 1, 10, 0, 1, 1) {
 	case 0:
-		return Step{Op: "open", A: r.Pick(4, 3, 3, 3), B: r.Intn(4), C: r.Intn(3), D: int64(r.Intn(3))}
+		kind := r.Pick(4, 3, 3, 3, 2)
+		mode := 0
+		switch kind {
+		case 0, 1:
+			mode = r.Pick(6, 1, 1, 0, 2) // plain / bound through an interface / connected through an interface / wildcard kept
+			if mode == 4 && r.Chance(0.3) {
+				mode = 6
+			}
+		case 4:
+			mode = []int{0, 2, 8, 10}[r.Intn(4)]
+		}
+		return Step{Op: "open", A: kind, B: r.Intn(4), C: r.Intn(3), D: int64(r.Intn(3) + 3*mode)}
+	case 5:
+		if len(w.socks) > 0 {
+			return Step{Op: "reopen", A: r.Intn(len(w.socks)), B: r.Intn(2), C: r.Intn(3)}
+		}
+		return Step{Op: "open", A: 2, B: r.Intn(4), C: r.Intn(3)}
 	case 1:
 		if len(w.socks) > 0 {
 			return Step{Op: "close", A: r.Intn(len(w.socks))}
@@ -349,7 +581,7 @@ func (w *dmWorld) next() Step {
 		if r.Chance(0.35) {
 			op = "tcp"
 		}
-		st := Step{Op: op, A: r.Pick(5, 1), B: r.Intn(4), C: r.Intn(3), D: int64(r.Intn(3))}
+		st := Step{Op: op, A: r.Pick(5, 1), B: r.Intn(4), C: r.Intn(4), D: int64(r.Intn(3))}
 		// most packets are aimed at (or just beside) an open socket
 		if len(w.socks) > 0 && r.Chance(0.7) {
 			s := w.socks[r.Intn(len(w.socks))]
@@ -381,7 +613,7 @@ func (w *dmWorld) next() Step {
 			case 1:
 				st.B = r.Intn(4)
 			case 2:
-				st.C = r.Intn(3)
+				st.C = r.Intn(4)
 			case 3:
 				st.D = int64(r.Intn(3))
 			case 4:
@@ -398,7 +630,7 @@ func (scDemux) Run(t *testing.T, prop string, seed uint64, cfgRaw json.RawMessag
 	json.Unmarshal(cfgRaw, &cfg)
 	o := &RunOut{Cfg: cfgRaw}
 	bubble(t, func() {
-		w := &dmWorld{PeerWorld: NewPeerWorld(seed, 1500, NodeOpts{}), cfg: cfg}
+		w := &dmWorld{PeerWorld: NewPeerWorld(seed, 1500, NodeOpts{}), cfg: cfg, prop: prop}
 		defer w.Close()
 		w.TraceOn = trace
 		w.YieldP = cfg.YieldP
@@ -440,9 +672,7 @@ func (scDemux) Run(t *testing.T, prop string, seed uint64, cfgRaw json.RawMessag
 		}
 		w.OnEmit = nil
 		for _, sk := range w.socks {
-			if !sk.closed {
-				sk.ep.Close()
-			}
+			w.closeSock(sk)
 		}
 		w.Advance(70 * time.Second)
 		finish(w.World, o)
